@@ -21,7 +21,8 @@ ALWAYS_STANDIN = True
 
 def tasks(tier):
     pols = ['least-recently-stored', 'none'] if tier == 'quick' else c03.POLICIES
-    return [('contracts.c03', 'method_task', ('C04', m, pol)) for m in METHODS for pol in pols]
+    return [('contracts.c03', 'method_task', ('C04', m, pol)) for m in METHODS for pol in pols] + \
+        c03.bulk_tasks('C04', ('expire',))
 
 
 def meta(results, tier):
